@@ -28,12 +28,12 @@ type Expr struct {
 	BadOp bool `json:"bad_op,omitempty"`
 }
 
-func ColE(name string) Expr   { return Expr{Kind: "col", Col: name} }
-func IntE(v int) Expr         { return Expr{Kind: "const", CK: "int", I: v} }
-func FloatE(v float64) Expr   { return Expr{Kind: "const", CK: "float", FB: math.Float64bits(v)} }
-func BoolE(v bool) Expr       { return Expr{Kind: "const", CK: "bool", B: v} }
-func StrE(v string) Expr      { return Expr{Kind: "const", CK: "string", S: v} }
-func NilE() Expr              { return Expr{Kind: "const", CK: "nil"} }
+func ColE(name string) Expr          { return Expr{Kind: "col", Col: name} }
+func IntE(v int) Expr                { return Expr{Kind: "const", CK: "int", I: v} }
+func FloatE(v float64) Expr          { return Expr{Kind: "const", CK: "float", FB: math.Float64bits(v)} }
+func BoolE(v bool) Expr              { return Expr{Kind: "const", CK: "bool", B: v} }
+func StrE(v string) Expr             { return Expr{Kind: "const", CK: "string", S: v} }
+func NilE() Expr                     { return Expr{Kind: "const", CK: "nil"} }
 func Call(op string, a ...Expr) Expr { return Expr{Kind: "call", Op: op, Args: a} }
 
 func (e Expr) String() string {
